@@ -1,7 +1,9 @@
 #!/usr/bin/env python3
 """Run every seeded change (seeded/<id>/patch.diff) against the quick check of its property and write seeded/MATRIX.md.
-Applies the patch to /repo, runs the check, undoes the patch straight afterwards.  Nothing else may use /repo meanwhile.
-usage: python3 tools/seeded_matrix.py [id ...]"""
+By default the patch is applied in a scratch worktree of /repo's HEAD (outside /repo and /verif, removed afterwards) and the
+check is pointed at it with VERIF_REPO, so that /repo is never touched and other runs are not disturbed; with --in-repo the
+patch is applied to /repo itself, the check run, and the patch undone straight afterwards (nothing else may use /repo meanwhile).
+usage: python3 tools/seeded_matrix.py [--in-repo] [id ...]"""
 import json
 import os
 import re
@@ -18,10 +20,28 @@ def sh(cmd, **kw):
 
 
 def main():
+    in_repo = "--in-repo" in sys.argv
+    sys.argv = [a for a in sys.argv if a != "--in-repo"]
+    global R
+    wt = None
+    if not in_repo:
+        wt = "/tmp/seeded-matrix-wt"
+        sh(["git", "-C", "/repo", "worktree", "remove", "--force", wt])
+        if sh(["git", "-C", "/repo", "worktree", "add", "--detach", wt]).returncode != 0:
+            sys.exit("cannot create the scratch worktree")
+        R = wt
+    try:
+        run(in_repo)
+    finally:
+        if wt:
+            sh(["git", "-C", "/repo", "worktree", "remove", "--force", wt])
+
+
+def run(in_repo):
     ids = sys.argv[1:] or sorted(d for d in os.listdir(os.path.join(V, "seeded")) if os.path.isdir(os.path.join(V, "seeded", d)))
     rows = []
     if sh(["git", "-C", R, "status", "--porcelain", "--untracked-files=no"]).stdout.strip():
-        sys.exit("tracked files of /repo are modified: refusing to run")
+        sys.exit("tracked files of %s are modified: refusing to run" % R)
     for sid in ids:
         d = os.path.join(V, "seeded", sid)
         meta = json.load(open(os.path.join(d, "meta.json")))
@@ -32,7 +52,10 @@ def main():
             rows.append((sid, prop, "patch does not apply: " + a.stdout[-200:], "", 0))
             continue
         try:
-            r = sh(["python3", "tools/check.py", "--property", prop, "--tier", "quick"], cwd=V, timeout=3000)
+            env = dict(os.environ)
+            if not in_repo:
+                env["VERIF_REPO"] = R
+            r = sh(["python3", "tools/check.py", "--property", prop, "--tier", "quick"], cwd=V, timeout=3000, env=env)
             out = r.stdout
         except subprocess.TimeoutExpired:
             out = "TIMEOUT"
@@ -56,7 +79,7 @@ def main():
                 old[m.group(1)] = l
     with open(mp, "w") as f:
         f.write("# Seeded changes against the quick checks (written by tools/seeded_matrix.py)\n\n")
-        f.write("Each row: the change is applied to /repo (`git -C /repo apply seeded/<id>/patch.diff`), the property's quick check is run, the change is undone.\n\n")
+        f.write("Each row: the change is applied (`git apply seeded/<id>/patch.diff`) to /repo's HEAD -- in a scratch worktree the check is pointed at with VERIF_REPO, or, with --in-repo, to /repo itself and undone straight afterwards --, and the property's quick check is run.\n\n")
         f.write("| id | property | result | what the check reports (first messages) |\n|---|---|---|---|\n")
         new = {r[0]: "| %s | %s | %s | %s |\n" % (r[0], r[1], r[2], r[3].replace("|", "/")) for r in rows}
         old.update(new)
